@@ -1,7 +1,4 @@
 (** ScopeSimWsT: ScopeSimWs.v over the typed development: C05_resolution for a workspace with field access. *)
-(** ScopeSimWs: C05_resolution for a WORKSPACE of several files.  An `include` at the top level of a file is the
-    inclusion of the statements of the included file the first time the file is reached
-    ([ScopeSpec.flat_file]); the model pushes the file on its trace, indexes the statements, pops the file. *)
 From Coq Require Import List NArith Bool Lia Arith.
 From TG.Model Require Import CoreAst Scope BangOps Indexer .
 From TG.Model Require Import ScopeSpecT.
